@@ -145,6 +145,15 @@ CLAIMS["C12"] = dict(level="proof", suites=["F"], design="5/C12",
         "drift and M M^T = vol C vol for the currently configured parameters after every change. PARTIAL: the distributional claim rests on NumPy's standard_normal (oracle).",
    note=COMMON_NOTE + "Axioms under the real-number theorems: ClassicalDedekindReals.sig_not_dec, sig_forall_dec, FunctionalExtensionality.functional_extensionality_dep (Coq standard library Reals). "
         "Admissible inputs: positive initial values, non-negative volatilities, positive-definite correlation matrices, changes at times within the generated horizon.")
+CLAIMS["C20"] = dict(level="proof", suites=["A"], design="5/C20",
+   technique="Coq proofs of the agents' decision kernels (Q for market maker / arbitrage / FCN order rule, R for the FCN sign law) + differential correspondence with recorded libm results and gauss draws + monitor (partial: float/libm glue tested)",
+   text="Theorems C20_* (props/C20.v): the FCN agent (fixed margin) emits one limit order of volume 1, lifetime = window, own id, buying exactly when expected price > market price (selling when below, nothing at equality) "
+        "at the expected price shaded by the margin; over the reals the side is the sign of the weighted fundamental/chart/noise log-return; the market maker quotes one buy and one sell on its target, symmetric around the base "
+        "price (mid of best accessible limit quotes, else market price) and separated by fundamental x spread; the arbitrage agent is silent unless everything runs and the gap exceeds the threshold, then sends one index order "
+        "of n x v against n component orders of v on the opposite side. The real FCNAgent, MarketShareFCNAgent, MarketMakerAgent and ArbitrageAgent are driven in controlled market states built through the runner and Level-M "
+        "operations; math.log/exp results and gauss draws are recorded and fed to the model (prices to 1e-9 relative for FCN, exact for the others); the monitor recomputes the documented strategy independently.",
+   note=COMMON_NOTE + "PARTIAL: libm (log, exp), random.gauss and random.choices are oracles; a side decision with |expected/market - 1| < 1e-9 is counted inconclusive-float, never a violation. "
+        "Normal-margin mode is outside the stated property. Real-number theorems depend on the standard library's real axioms.")
 CLAIMS["C06"]["suites"] = ["M", "S"]
 CLAIMS["C04"]["suites"] = ["M", "S"]
 
